@@ -161,6 +161,23 @@ def gen_cases(rng, n_per_family):
         # ---- literals
         add('literal:unary', 'DS_r <- DS_1[calc Me_2 := %s];' % pick(['- -1', '-(-1)', '+ -1', '- +1', '- - -2', 'not not true', '1 - -1', '2 * -3']), *num_ds([1.0]))
         add('literal:scalar', 'sc_r <- %s;' % pick(['- -1', '-(-1.5)', '1--1', '- - 2']), *num_ds([1.0]))
+    # ---- VALID scripts whose temporary (:=) results carry time-typed columns while the persistent result does not (or the
+    #      other way round): nothing may escape, in any output format, when every result is returned
+    tds = structs(('DS_1', [comp('Id_1', 'Integer', 'Identifier'), comp('Id_2', 'Time_Period', 'Identifier'), comp('Me_1', 'Number', 'Measure'),
+                            comp('Me_2', 'Date', 'Measure'), comp('Me_3', 'Duration', 'Measure')]))
+    tdata = {'DS_1': {'Id_1': [1, 1, 2], 'Id_2': ['2020M1', '2020M2', '2021M12'], 'Me_1': [1.0, 2.0, 3.0],
+                      'Me_2': ['2020-01-15', '2020-02-29', None], 'Me_3': ['M', 'A', None]}}
+    valid = ['T_1 := DS_1[filter Me_1 > 0]; DS_r <- count(T_1 group by Id_1);',
+             'T_1 := DS_1; DS_r <- T_1[keep Me_1][sub Id_2 = cast("2020M1", time_period)];',
+             'T_1 := DS_1[calc Me_4 := Me_1 * 2]; T_2 := T_1[keep Me_4]; DS_r <- sum(T_2 group by Id_1);',
+             'DS_r <- DS_1[keep Me_1]; T_1 := DS_1[keep Me_2];',
+             'T_1 := DS_1[keep Me_3]; DS_r <- DS_1[aggr Me_9 := max(Me_1) group by Id_1];',
+             'T_1 := DS_1[calc Me_5 := period_indicator(Id_2)]; DS_r <- max(DS_1#Me_1 group by Id_1);',
+             'T_1 := DS_1; T_2 := T_1; DS_r <- T_2;',
+             'sc_1 := cast("2020Q1", time_period); DS_r <- DS_1[keep Me_1];']
+    for v in valid:
+        for f in FMTS:
+            add('valid:time-typed-temporaries', v, tds, tdata, f)
     for i, c in enumerate(cases):
         c['id'] = i
     return cases
